@@ -1,6 +1,7 @@
 import JaqalProofs.Lemmas.RoundTripTokens
 import JaqalProofs.Lemmas.RoundTripProgram
 import JaqalProofs.Lemmas.RoundTripLex
+import JaqalProofs.Lemmas.RoundTripGenProgram
 import JaqalProofs.Props.C02
 import JaqalProofs.Props.C07
 import JaqalProofs.Props.C14
@@ -31,7 +32,9 @@ For circuits in the range of `parseProgram` (any text, `autoload_pulses=False`):
   generator's order (usepulses, lets, register, aliases, macros, statements — every generated text is such a program);
   for other orders (C) is reduced (`C01_rebuild_of_reorder`, PROVED) to `C01_reorder_full`: hoisting lets / the register /
   aliases / macros into that order does not change what the builder makes — NOT proved;
-* (B) `C01_lex_gen_full` — NOT proved (the missing lemmas are named there).
+* `C01_lex_gen` — (B) PROVED for every printable circuit whose names / floats / ints the lexer can read back
+  (`LexSafe`); that parser-produced circuits are `LexSafe` is `C01_lexsafe_full`, NOT proved (and false in the model for
+  computed 4301-digit slice stops).
 `C01_roundtrip_partial` derives the property from the two remaining statements.  All layer statements are computable;
 the differential harness evaluates them in the model on every generated program (driver op `round_trip_layers`,
 `harness/agents/c01_diff.py`) next to the round trip of the real code.
@@ -256,21 +259,47 @@ theorem C01_rebuild_of_reorder (hR : C01_reorder_full) : C01_rebuild_full := by
     exact ht
   exact ⟨c, hpb, C20.C20_refl c (C01_wf cfg txt c ha h), rfl⟩
 
-/-- MISSING (text layer `lex_gen`): for a parser-produced circuit the generator does not raise and its text lexes
-to `toks c`.  Ingredients that exist: the literal lemmas of `Props/C01Literals.lean` (`C01_float_roundtrip`,
-`C01_int_roundtrip`, `C01_no_token_merge*`: a number followed by a blank, newline or `]` is one token with the same
-value); `lexAux_toks_ok` (`Lemmas/RoundTripLex.lean`: the lexer's identifiers are made of identifier characters).
-Ingredients that are missing: (1) `Lexer.mNumber`/`mInt` (used by `lex`) agree with `NumText.parseNumber`/`parseInt`
-(used by those lemmas); (2) every name the builder stores is one of the program's identifiers (or `a[i]` made of two of
-them) and an identifier followed by ` `, `\n`, `[`, `]` lexes as one IDENTIFIER token; every float the builder stores is
-canonical; (3) `lexAux` over a concatenation of such pieces. -/
+/-! ### (B) the text layer -/
+
+/-- **Layer B**, PROVED for every printable circuit that is `LexSafe`: all its names are read back as one IDENTIFIER
+(module names as IDENTIFIER or DOTIDENTIFIER), all its floats are canonical decimals that do not overflow, all its ints
+have at most 4300 digits (`int(text)` refuses more).  The generator does not raise on it, and lexing the text gives
+exactly `toks c` (`Lemmas/RoundTripGenProgram.lean`: the text is, piece by piece, a spelling of those tokens). -/
+theorem C01_lex_gen (c : Circuit) (hp : printable c = true) (hs : LexSafe c) : LexGen c := by
+  obtain ⟨t, pts, ht, hl, hm⟩ := lex_gen c hp hs
+  exact ⟨t, pts, ht, hl, hm⟩
+
+/-- MISSING (`parseProgram_lexSafe`): a parser-produced circuit is `LexSafe`.  For names and floats this is a builder
+invariant that has not been carried through: every name of `c` is the text of an IDENTIFIER token of the program
+(`lexAux_toks_ok` shows those are made of identifier characters) or `a[i]` made of two of them, and every float of `c`
+is the value of a NUMBER token (canonical, not overflowing: `Lexer.step`).  For ints it is FALSE in the model as it
+stands: the stop of a defaulted slice of an alias is computed (`src.size`), and `register r[N]; let m -N; map a r[m:];
+map b a[:]` with 4300-digit `N` makes it a 4301-digit int, which `gen` writes and `lex` refuses.  (The real builder
+fails earlier there, with an uncaught `OverflowError` from `len(range(...))`, for any size beyond `2^63`; so on the real
+code computed sizes stay far below 4300 digits.) -/
+def C01_lexsafe_full : Prop :=
+  ∀ (cfg : Config) (txt : String) (c : Circuit), cfg.autoload = false → parseProgram cfg txt = .ok c → LexSafe c
+
+/-- layer (B) for all parser-produced circuits -/
 def C01_lex_gen_full : Prop :=
   ∀ (cfg : Config) (txt : String) (c : Circuit), cfg.autoload = false → parseProgram cfg txt = .ok c → LexGen c
+
+theorem C01_lex_gen_of_lexsafe (hS : C01_lexsafe_full) : C01_lex_gen_full :=
+  fun cfg txt c ha h => C01_lex_gen c (C01_printable cfg txt c ha h) (hS cfg txt c ha h)
 
 /-- The property follows from the two remaining range statements. -/
 theorem C01_roundtrip_partial (hB : C01_lex_gen_full) (hR : C01_reorder_full) : C01_roundtrip_full :=
   fun cfg txt c ha h => C01_compose cfg c (C01_printable cfg txt c ha h) (hB cfg txt c ha h)
     (C01_rebuild_of_reorder hR cfg txt c ha h)
+
+/-- **The round trip, PROVED outright**, for every accepted text whose statements come in the generator's order and
+whose circuit the lexer can read back (`LexSafe`): the generated text is accepted, parses to a circuit `==` to the
+original one (in fact to the very same circuit), and generating again reproduces the text byte for byte. -/
+theorem C01_roundtrip_canonical (cfg : Config) (txt : String) (c : Circuit) (ha : cfg.autoload = false)
+    (h : parseProgram cfg txt = .ok c) (hcan : ∀ sx, parseText txt = .ok sx → CanonicalSx sx) (hs : LexSafe c) :
+    ∃ t c', gen c = .ok t ∧ parseProgram cfg t = .ok c' ∧ circuitEq c c' = true ∧ gen c' = .ok t :=
+  C01_compose cfg c (C01_printable cfg txt c ha h) (C01_lex_gen c (C01_printable cfg txt c ha h) hs)
+    (C01_rebuild_canonical cfg txt c ha h hcan).2
 
 /-- For a text in the generator's order only (B) is missing. -/
 theorem C01_roundtrip_canonical_partial (hB : C01_lex_gen_full) (cfg : Config) (txt : String) (c : Circuit)
@@ -442,6 +471,50 @@ theorem exC_rebuild :
     exC2.body.stmts.length = exC.body.stmts.length ∧
     dictEq Val.name? valEq exC.registers exC2.registers = true := by decide +kernel
 
+/-! non-vacuity of layer B: `let n -2.5e-07; register r[2]; g r[0] n` is printable and `LexSafe`, so its generated text
+lexes to its tokens -/
+
+/-- `let n -2.5e-07 ; register r[2] ; g r[0] n` -/
+def c0 : Circuit :=
+  { constants := [.const "n" (.flt ⟨true, 25, -8⟩)],
+    registers := [.regF "r" (.int 2)],
+    body := .block false false (.int 1)
+      [.gate "g" (anonDef "g" 2) [("p0", .qubit "r[0]" (.regF "r" (.int 2)) (.int 0)), ("p1", .const "n" (.flt ⟨true, 25, -8⟩))]] }
+
+theorem legal_r : LegalName "r" := by
+  refine ⟨⟨'r', [], rfl, by decide, ?_⟩, rfl⟩
+  simp [TailOK, identTail]
+theorem legal_g : LegalName "g" := by
+  refine ⟨⟨'g', [], rfl, by decide, ?_⟩, rfl⟩
+  simp [TailOK, identTail]
+theorem legal_n : LegalName "n" := by
+  refine ⟨⟨'n', [], rfl, by decide, ?_⟩, rfl⟩
+  simp [TailOK, identTail]
+
+theorem c0_printable : printable c0 = true := by decide
+
+theorem c0_safe : LexSafe c0 := by
+  refine ⟨(by intro u hu; cases hu), ?_, ?_, (by intro m hm; cases hm), ?_⟩
+  · intro v hv
+    simp only [c0, List.mem_singleton] at hv
+    subst hv
+    exact ⟨legal_n, by decide, by decide⟩
+  · intro v hv
+    simp only [c0, List.mem_singleton] at hv
+    subst hv
+    exact ⟨legal_r, show IntOK 2 by unfold IntOK; decide⟩
+  · intro s hs
+    simp only [c0, Stmt.stmts, List.mem_singleton] at hs
+    subst hs
+    refine ⟨legal_g, ?_, ?_, trivial⟩
+    · have : isItem "r[0]" (.regF "r" (.int 2)) (.int 0) = true := by decide
+      simp only [SafeArg, this, if_true]
+      exact ⟨legal_r, show IntOK 0 by unfold IntOK; decide⟩
+    · exact legal_n
+
+/-- the generated text of `c0` lexes to its 17 tokens -/
+example : LexGen c0 ∧ (toks c0).length = 17 := ⟨C01_lex_gen c0 c0_printable c0_safe, by decide⟩
+
 /-! A whole TEXT through all three layers (`Pipeline.layers {} "register r[2]\ng r[0]\n"` is
 `⟨true, true, true, true⟩`) can be checked with `#eval`; kernel evaluation of the lexer on computed strings needs tens of
 gigabytes, so it is not made a theorem here. The differential harness evaluates `layers` natively on every generated
@@ -455,8 +528,10 @@ program (op `round_trip_layers`). -/
 #print axioms C01_no_same_kind_nesting
 #print axioms C01_wf
 #print axioms C01_rebuild_canonical
+#print axioms C01_lex_gen
 #print axioms C01_rebuild_of_reorder
 #print axioms C01_roundtrip_partial
+#print axioms C01_roundtrip_canonical
 #print axioms C01_roundtrip_canonical_partial
 #print axioms C01_zero_step_rejected
 #print axioms C01_no_literal_zero_step
